@@ -13,7 +13,10 @@ Defaults(r) == {p \in MPeers : MCfg.peers[p].default /\ MCfg.peers[p].realm = r}
 Strict(a, r) == IF RoutePeers(a, r) # {} THEN RoutePeers(a, r) ELSE Defaults(r)    \* the peers the node considers
 Allowed(a, r) == RoutePeers(a, r) \cup Defaults(r)                                   \* the peers the statement allows
 
-Init == [i |-> 0, viol |-> {}, prev |-> [peers |-> [p \in MPeers |-> [conn |-> 0, st |-> ""]]],
+\* the public counter the library's default callback (select_least_used_peer) is documented to compare, as the node
+\* showed it before the step; traces recorded before counters were observed have none
+ReqCnt(pr) == IF "cnt" \in DOMAIN pr THEN pr.cnt[7] ELSE 0
+Init == [i |-> 0, viol |-> {}, prev |-> [peers |-> [p \in MPeers |-> [conn |-> 0, st |-> "", rq |-> 0]]],
          sent |-> <<>>,       \* requests the node transmitted for senders: [k, a, c, hbh, e2e, t, timeout, done]
          outst |-> [c \in CIds |-> {}]]    \* hop-by-hop ids of node-originated application requests outstanding on c
 
@@ -47,7 +50,12 @@ StepN(M, st) ==
                     (IF out[j].c \in CIds /\ out[j].m.hbh \in M0.outst[out[j].c] THEN {"hop_by_hop_id_not_unique_on_connection"} ELSE {}) \cup
                     (IF sel # {} /\ \E s \in sel : (ToSet(out[s].offered) # {p \in Strict(a, r) : ready(p)})
                        THEN {"selection_offered_wrong_peers"} ELSE {}) \cup
-                    (IF sel # {} /\ \E s \in sel : LET want == IF st.act.pick = "last" THEN out[s].offered[Len(out[s].offered)] ELSE out[s].offered[1]
+                    (IF sel # {} /\ \E s \in sel : LET off == out[s].offered
+                                                    \* "default": the first of the offered peers with the fewest requests
+                                                    lu == CHOOSE i \in 1..Len(off) : (\A q \in 1..Len(off) : pv[off[i]].rq <= pv[off[q]].rq) /\
+                                                                                     (\A q2 \in 1..(i - 1) : pv[off[q2]].rq > pv[off[i]].rq)
+                                                    want == IF st.act.pick = "last" THEN off[Len(off)]
+                                                            ELSE IF st.act.pick = "default" THEN off[lu] ELSE off[1]
                                                 IN want \notin peerOfConn(out[j].c)
                        THEN {"selected_peer_not_used"} ELSE {}) \cup
                     (IF sel = {} /\ Cardinality({p \in Strict(a, r) : ready(p)}) > 1 THEN {"selection_callback_not_consulted"} ELSE {})
@@ -103,6 +111,7 @@ StepN(M, st) ==
       outst1 == [c \in CIds |-> (M0.outst[c] \cup {sent1[y].hbh : y \in {z \in 1..Len(sent1) : sent1[z].c = c /\ z > Len(M0.sent)}})
                                  \ (IF IsFeed(st) /\ st.act.c = c THEN {st.act.ms[x].hbh : x \in fedAns} ELSE {})]
   IN [M0 EXCEPT !.viol = @ \cup {[sig |-> s, at |-> M0.i] : s \in sigs}, !.sent = sent2, !.outst = outst1,
-                !.prev = [peers |-> [p \in MPeers |-> [conn |-> st.snap.peers[p].conn, st |-> st.snap.peers[p].st]]]]
+                !.prev = [peers |-> [p \in MPeers |-> [conn |-> st.snap.peers[p].conn, st |-> st.snap.peers[p].st,
+                                                         rq |-> ReqCnt(st.snap.peers[p])]]]]
 Step(M, s0) == StepN(M, Norm(s0))
 =============================================================================
